@@ -871,14 +871,14 @@ def run_shard(rep, tier, seed, shard, nshards):
             run_case(rep, case, state)
 
     dl = Deadline(budget(tier, 40, 400))
-    n_step = budget(tier, 4000, 12000)
+    n_step = budget(tier, 4000, 60000)
     for k in range(n_step):
         if dl.expired():
             break
         cs = f"{seed}/C18/step/{shard}/{k}"
         run_case(rep, gen_step_case(rng_for(cs), cs, tier), state)
     dl2 = Deadline(budget(tier, 40, 400))
-    n_rep = budget(tier, 2000, 6000)
+    n_rep = budget(tier, 2000, 30000)
     for k in range(n_rep):
         if dl2.expired():
             break
